@@ -9,7 +9,7 @@ Requests (TAB separated).  A value field is
   boolstr  <val>                     -> 1 | 0 | <Error>
   intbool  <val>                     -> 1 | 0 | <Error>
   intlike  <val>                     -> 1 | 0
-  valint   <val> <min|N> <max|N>     -> ok:<n> | <Error>
+  valint   <val> <min|N> <max|N>     -> ok:<n> | <Error>     bounds: <p>/<q> | +inf | -inf | nan | dnan
   strlen   <val> <min> <max|N>       -> ok | <Error>
   uuid     <val>                     -> 1 | 0
   int      <10|16> <hex text>        -> ok:<n> | ValueError          (primitive)
@@ -19,6 +19,7 @@ Requests (TAB separated).  A value field is
 
 def showErr : ErrKind → String
   | .valueError => "ValueError" | .typeError => "TypeError" | .overflowError => "OverflowError"
+  | .invalidOperation => "InvalidOperation"
 
 def parseErr : String → Option ErrKind
   | "ValueError" => some .valueError | "TypeError" => some .typeError
@@ -37,6 +38,24 @@ def parseVal (f : String) : Option PyVal :=
       if r.startsWith "ok=" then ((r.drop 3).toString.toInt?).map (fun n => .other t (.ok n))
       else (parseErr r).map (fun e => .other t (.error e))
   | _ => none
+
+/-- a bound field: `<p>/<q>` (q > 0) | `+inf` | `-inf` | `nan` | `dnan` -/
+def parseBound (f : String) : Option Bound :=
+  if f = "+inf" then some .posInf
+  else if f = "-inf" then some .negInf
+  else if f = "nan" then some .nan
+  else if f = "dnan" then some .decNan
+  else
+    match f.splitOn "/" with
+    | [p, q] =>
+      match p.toInt?, q.toNat? with
+      | some p, some q => if q = 0 then none else some (.fin p q)
+      | _, _ => none
+    | _ => none
+
+/-- `N` = None -/
+def optBound (f : String) : Option (Option Bound) :=
+  if f = "N" then some none else (parseBound f).map some
 
 def bit (b : Bool) : String := if b then "1" else "0"
 
@@ -66,14 +85,14 @@ def handle : List String → String
     | some v => bit (isIntLike v)
     | none => "bad-request"
   | ["valint", v, lo, hi] =>
-    match parseVal v, optInt lo, optInt hi with
+    match parseVal v, optBound lo, optBound hi with
     | some v, some lo, some hi =>
       match validateInteger v lo hi with
       | .ok n => s!"ok:{n}"
       | .error e => showErr e
     | _, _, _ => "bad-request"
   | ["strlen", v, lo, hi] =>
-    match parseVal v, lo.toInt?, optInt hi with
+    match parseVal v, parseBound lo, optBound hi with
     | some v, some lo, some hi =>
       match checkStringLength v lo hi with
       | .ok _ => "ok"
